@@ -58,7 +58,6 @@ func touch(m proto.Message) int {
 	return proto.Size(m)
 }
 
-
 type raceOp func(t *Task)
 
 // runOps starts one task per op list.
@@ -391,12 +390,21 @@ func raceModels(w *World) {
 	which := t.Choose(3)
 	switch which {
 	case 0:
-		m := electricpb.NewModel(electricpb.WithRNG(rand.New(rand.NewSource(1))), electricpb.WithInitialMode(&traits.ElectricMode{Id: "m1", Normal: true}, &traits.ElectricMode{Id: "m2"}))
+		ms := []*electricpb.Model{electricpb.NewModel(electricpb.WithRNG(rand.New(rand.NewSource(1))), electricpb.WithInitialMode(&traits.ElectricMode{Id: "m1", Normal: true}, &traits.ElectricMode{Id: "m2"}))}
+		if t.Flag(1, 3) {
+			// two independent devices built the default way (what a process hosting several devices does): anything the
+			// package shares between its models is shared between unrelated callers
+			ms = []*electricpb.Model{
+				electricpb.NewModel(electricpb.WithInitialMode(&traits.ElectricMode{Id: "m1", Normal: true}, &traits.ElectricMode{Id: "m2"})),
+				electricpb.NewModel(electricpb.WithInitialMode(&traits.ElectricMode{Id: "m1", Normal: true}, &traits.ElectricMode{Id: "m2"})),
+			}
+		}
 		ids := []string{"m1", "m2", "m3"}
 		for i := range lists {
 			k := 1 + t.Choose(4)
 			for j := 0; j < k; j++ {
 				id := ids[t.Choose(3)]
+				m := ms[t.Choose(len(ms))]
 				switch t.Choose(9) {
 				case 0:
 					lists[i] = append(lists[i], func(*Task) { r, _ := m.CreateMode(&traits.ElectricMode{Title: "x"}); touch(r) })
